@@ -64,11 +64,11 @@ type ifSite struct {
 }
 
 type ifTr struct {
-	fset *token.FileSet
-	fn   string            // enclosing Go function
-	env  map[string]string // Go identifier → Lean term (captured inputs and locals)
-	kind map[string]string // Go identifier → "call" | "req" | "id" | "resp"
-	buf  *bytes.Buffer
+	fset  *token.FileSet
+	fn    string            // enclosing Go function
+	env   map[string]string // Go identifier → Lean term (captured inputs and locals)
+	kind  map[string]string // Go identifier → "call" | "req" | "id" | "resp"
+	buf   *bytes.Buffer
 	errOK bool // `err` is known to be non-nil where the closure runs
 }
 
@@ -499,7 +499,7 @@ func (t *ifTr) seq(list []ast.Stmt, ind int) error {
 				return t.bad(x, "panic with a non-literal")
 			}
 			msg, _ := strconv.Unquote(lit.Value)
-			t.w(ind, "(s, { o with panic := some %s })", strconv.Quote(msg))
+			t.w(ind, "(s, { o with panic := true }) -- %s", strings.ReplaceAll(msg, "\n", " "))
 			return nil // a panic ends the closure
 		}
 		if ifIsIdent(c.Fun, "delete") && len(c.Args) == 2 {
@@ -515,7 +515,7 @@ func (t *ifTr) seq(list []ast.Stmt, ind int) error {
 			return t.seq(rest, ind)
 		}
 		if ifIsIdent(c.Fun, "close") && len(c.Args) == 1 && ifIsSel(c.Args[0], "c", "done") {
-			t.w(ind, "if s.done then (s, { o with panic := some \"close of closed channel\" }) else")
+			t.w(ind, "if s.done then (s, { o with panic := true }) else -- close of closed channel")
 			t.w(ind, "let s := { s with done := true }")
 			t.w(ind, "let o := { o with closedDone := true }")
 			return t.seq(rest, ind)
@@ -790,7 +790,7 @@ func (t *ifTr) assign(x *ast.AssignStmt, ind int) error {
 		if c, ok := rhs.(*ast.CallExpr); ok && len(c.Args) == 0 {
 			if sel, ok := c.Fun.(*ast.SelectorExpr); ok && sel.Sel.Name == "Close" {
 				if g, ok := ifSField(sel.X); ok && g == "closerOpen" {
-					t.w(ind, "if !s.closerOpen then (s, { o with panic := some \"nil closer\" }) else")
+					t.w(ind, "if !s.closerOpen then (s, { o with panic := true }) else -- nil closer")
 					t.w(ind, "let o := { o with closedCloser := true }")
 					return nil
 				}
@@ -980,9 +980,7 @@ func inflight(repo, out string) error {
 
 	var b bytes.Buffer
 	b.WriteString("-- GENERATED by /verif/extract/inflight.go from x/jsonrpc2/conn.go. Do not edit.\n")
-	b.WriteString("import GopModel.Model.InFlightTypes\nnamespace GopModel.InFlight.Gen\nopen GopModel.InFlight\n\n")
-	b.WriteString("/-- Captured inputs of a closure (only the components the closure mentions are used). -/\n")
-	b.WriteString("structure Args where\n  call : Call\n  req : Req\n  id : ID\n  deriving DecidableEq, Repr\n\n")
+	b.WriteString("import GopModel.Model.InFlightTypes\nset_option linter.unusedVariables false\nnamespace GopModel.InFlight.Gen\nopen GopModel.InFlight\n\n")
 
 	// idle
 	idle := ifFindFunc(conn, "idle")
